@@ -507,7 +507,7 @@ class HangDetected(BaseException):
 
 class _HangGuard:
     """A server that spins without yielding cannot be caught by step caps: one simulated
-    history normally takes milliseconds; 30 s of real time inside one is a hang."""
+    history normally takes milliseconds; 30 s of CPU time inside one is a hang."""
 
     def __init__(self, seconds=30.0):
         self.seconds = seconds
@@ -518,19 +518,19 @@ class _HangGuard:
         def on_alarm(signum, frame):
             raise HangDetected()
 
-        self._old = signal.signal(signal.SIGALRM, on_alarm)
-        signal.setitimer(signal.ITIMER_REAL, self.seconds)
+        self._old = signal.signal(signal.SIGPROF, on_alarm)
+        signal.setitimer(signal.ITIMER_PROF, self.seconds)  # CPU time: immune to a loaded machine
         return self
 
     def __exit__(self, *a):
         import signal
-        signal.setitimer(signal.ITIMER_REAL, 0)
-        signal.signal(signal.SIGALRM, self._old)
+        signal.setitimer(signal.ITIMER_PROF, 0)
+        signal.signal(signal.SIGPROF, self._old)
         return False
 
 
 def _hang_violation(r):
-    v = Violation("X-hang", "the queue server kept the CPU for 30 s of real time without yielding (busy loop) "
+    v = Violation("X-hang", "the queue server burnt 30 s of CPU time without yielding (busy loop) "
                   "while processing the last step")
     v.step_index = len(r.steps)
     return v
